@@ -4,6 +4,7 @@ Decided clauses: every documented rule checker is on the way from App::build, is
 reports with error severity, and is followed by an error gate before the Ok return; the checkers iterate their whole
 domain. Whether a walk reaches a violation planted at arbitrary depth is not decided.
 """
+import re
 from ..facts import callee, callee_resolved, op_place, strip_generics
 from ..flow import Defs, backward_slice, slice_calls, forward_derived
 from ..tables import enum_switches, switch_arms, switch_edges
@@ -440,10 +441,33 @@ REVIEWED_SKIP_PREDICATES = {
     'component::CannotTakeMutReferenceError::check_callable': set(),
 }
 REVIEWED_MODULES = ('analyses::user_components::scope_graph::',)
+# the types whose values `==` / `!=` compare inside the skip conditions of each roster checker, extracted from the pinned tree and confirmed by reading:
+# policies, lifecycles, edge kinds, node ids and one framework path — never a user type's name or path (`Arc`, `Box`, ..)
+REVIEWED_COMPARED_TYPES = {
+    'analyses::application_state::cloning::runtime_singletons_can_be_cloned_if_needed': {'pavex_bp_schema::CloningPolicy', 'pavex_bp_schema::Lifecycle', 'analyses::call_graph::core_graph::CallGraphEdgeMetadata'},
+    'analyses::call_graph::dependency_graph::DependencyGraph::assert_acyclic': {'petgraph::graph_impl::NodeIndex'},
+    'analyses::cloning::cloneables_can_be_cloned': {'pavex_bp_schema::CloningPolicy'},
+    'analyses::constructibles::ConstructibleDb::detect_missing_constructors': {'analyses::components::ConsumptionMode', 'pavex_bp_schema::CloningPolicy'},
+    'analyses::constructibles::ConstructibleDb::error_observers_cannot_depend_on_fallible_components': {'pavex_bp_schema::Lifecycle'},
+    'analyses::constructibles::ConstructibleDb::verify_lifecycle_of_singleton_dependencies': {'pavex_bp_schema::Lifecycle'},
+    'analyses::user_components::router::PathRouter::detect_path_conflicts': {'alloc::string::String'},
+    'path_parameters::verify_path_parameters': {'alloc::vec::Vec', 'computation::match_result::MatchResultVariant'},
+}
+
 _GENERIC_PREDICATES = ('eq', 'ne', 'is_some', 'is_none', 'is_empty', 'is_ok', 'is_err', 'contains', 'contains_key', 'len', 'lt', 'le', 'gt', 'ge',
                        'matches', 'starts_with', 'ends_with')
 
 LOOP_HEAD_CALLS = ('next', 'pop', 'pop_front', 'pop_back', 'next_back')
+
+
+def _qn(c, node):
+    """name of a predicate; `==` / `!=` carry the type they compare (what is compared is what decides)"""
+    c = strip_generics(c)
+    if c in ('core::cmp::PartialEq::eq', 'core::cmp::PartialEq::ne') and node is not None and node.get('aty'):
+        ty = node['aty'][0].replace('&mut ', '').replace('&', '').strip()
+        ty = re.sub(r"'[a-z_0-9]+ ", '', ty)
+        return '%s<%s>' % (c, strip_generics(ty))
+    return c
 
 
 def skip_predicates(b, mp, with_closures=True):
@@ -475,14 +499,14 @@ def skip_predicates(b, mp, with_closures=True):
                 cs = set()
                 if l is not None:
                     sl, _ = backward_slice(b, l, defs)
-                    cs = {strip_generics(c) for c, _, _ in slice_calls(sl) if c}
+                    cs = {_qn(c, nd) for c, _, nd in slice_calls(sl) if c}
                     # closures handed to iterator / Option adaptors on the way: what they call decides too
                     for _, _, node in (sl if with_closures else []):
                         rv = node.get('rv')
                         if rv and rv['k'] == 'agg' and rv.get('ak') == 'closure' and rv.get('def'):
                             for x in b.fb.bodies_of_item(b.crate, b.nroot):
                                 if x.id == rv['def'] or x.id.startswith(rv['def'] + '::'):
-                                    cs |= {strip_generics(callee(t2)) for _, t2 in x.calls() if callee(t2)}
+                                    cs |= {_qn(callee(t2), t2) for _, t2 in x.calls() if callee(t2)}
                 out[(H, W)] = cs
     return out
 
@@ -501,6 +525,7 @@ def r7_skip_conditions(ctx):
         if not ctx.need('C08.R7', short, bodies) or reviewed is None:
             continue
         found = {}
+        eq_types = {}
         home = bodies[0].file
 
         def expand(c, seen=None):
@@ -516,7 +541,7 @@ def r7_skip_conditions(ctx):
             out = set()
             for x in hb:
                 for _, t in x.calls():
-                    cc = strip_generics(callee(t) or '')
+                    cc = _qn(callee(t), t) if callee(t) else ''
                     if cc and cc != c:
                         out |= expand(cc, seen)
             return out
@@ -526,13 +551,19 @@ def r7_skip_conditions(ctx):
                 n += 1
                 for c0 in cs:
                     for c in expand(c0):
-                        if c.startswith('pavexc::') or c.split('::')[-1] in _GENERIC_PREDICATES:
-                            found.setdefault(c.replace('pavexc::compiler::', ''), b.loc(W))
+                        base = c.split('<')[0]
+                        if c.startswith('pavexc::') or base.split('::')[-1] in _GENERIC_PREDICATES:
+                            found.setdefault(base.replace('pavexc::compiler::', ''), b.loc(W))
+                            if '<' in c:
+                                eq_types.setdefault(c.split('<', 1)[1].rstrip('>').replace('pavexc::compiler::', ''), b.loc(W))
         # navigating the scope graph (parents of a scope, walk order) is reviewed as a module: it decides where a lookup looks, never whether an
         # item of the checked domain is examined
         new = sorted(x for x in set(found) - reviewed if not x.startswith(REVIEWED_MODULES))
         ctx.ob('C08.R7', 'skip-conditions|%s' % short, not new, found[new[0]] if new else bodies[0].loc(),
                '%d predicate(s) decide what %s skips; not in the reviewed table: %s' % (len(found), short.split('::')[-1], new or 'none'))
+        new_t = sorted(set(eq_types) - REVIEWED_COMPARED_TYPES.get(short, set()))
+        ctx.ob('C08.R7', 'compared-types|%s' % short, not new_t, eq_types[new_t[0]] if new_t else bodies[0].loc(),
+               '`==` / `!=` in the skip conditions of %s compare values of %d type(s); not in the reviewed table: %s' % (short.split('::')[-1], len(eq_types), new_t or 'none'))
     ctx.floor('C08.R7', 'skip-deciding branches in the roster checkers', n, 60)
 
 
